@@ -304,7 +304,47 @@ def run_auth_order(case: Dict[str, Any]) -> Dict[str, Any]:
             'sample': {'case': case, 'loaded': loaded}}
 
 
+def run_connect_drop(case: Dict[str, Any]) -> Dict[str, Any]:
+    """A plugin that returns 'no request' for the first request suppresses what the proxy would have done with it - for a CONNECT
+    that is the tunnel acknowledgement: a client must not be told '200 Connection established' for a request a plugin dropped,
+    and the plugins configured after the dropping one are not asked."""
+    rng = random.Random('c09d:%s:%s' % (case['seed'], case['i']))
+    order: List[int] = case['order']
+    who, hook = case['who'], case['hook']
+    TABLE.clear()
+    TABLE[(who, hook)] = ('drop', 0)
+    del LOG[:]
+    shim.S.reset()
+    flags = flags_for(order)
+    rig = StepRig(flags, case.get('mode', 'local'))
+    viol: List[Dict[str, Any]] = []
+    obs: Dict[str, int] = {'connect_drop_cases': 1}
+    feat = '%s|connect-dropped-by-plugin' % hook
+    try:
+        origin = rig.add_origin('127.0.%d.%d' % (rng.randint(0, 250), rng.randint(2, 250)))
+        hp = origin.hostport
+        c = rig.add_client('unix')
+        c.send(b'CONNECT %s HTTP/1.1\r\nHost: %s\r\n\r\n' % (hp, hp))
+        rig.until(lambda: c.ended or b'\r\n\r\n' in c.rx, [c], idle_timeout=0.4)
+        rig.settle([c], quiet=6)
+        detail = {'order': order, 'who': who, 'hook': hook, 'client': bytes(c.rx[:120]), 'log': [(e[0], e[1], e[3]) for e in LOG][:20]}
+        if b'Connection established' in c.rx:
+            viol.append({'key': feat + '|tunnel-acknowledged-all-the-same', 'detail': detail})
+        later = [e[0] for e in LOG if e[1] == hook and order.index(e[0]) > order.index(who)]
+        if later:
+            viol.append({'key': feat + '|later-plugins-still-asked', 'detail': detail})
+        if not viol:
+            obs['connect_drop_checked'] = 1
+    except LoopDied as e:
+        viol.append({'key': feat + '|loop-died:%s' % e.where(), 'detail': {'tb': e.tb[-1000:]}})
+    finally:
+        rig.close()
+    return {'viol': viol, 'nontrivial': True, 'sig': 'cdrop/%s/%s/%s' % (order, who, hook), 'obs': obs, 'sample': {'case': case}}
+
+
 def run_case(case: Dict[str, Any]) -> Dict[str, Any]:
+    if case.get('kind') == 'connect-drop':
+        return run_connect_drop(case)
     if case.get('kind') == 'auth-order':
         return run_auth_order(case)
     if case.get('kind') == 'resolve-chain':
@@ -663,6 +703,11 @@ def cases(tier: str, seed: int):
         for ans in subsets:
             i += 1
             yield {'seed': seed, 'i': i, 'kind': 'resolve-chain', 'order': order, 'answering': ans, 'method': ['GET', 'CONNECT'][i % 2], 'mode': 'local' if i % 3 else 'remote'}
+    for order in orders:
+        for who in order:
+            for hook in REQ_HOOKS:
+                i += 1
+                yield {'seed': seed, 'i': i, 'kind': 'connect-drop', 'order': order, 'who': who, 'hook': hook, 'mode': 'local' if i % 3 else 'remote'}
     # follow-ups arriving while the first answer is still queued for a client that does not read
     for order in orders:
         for (hook, beh, nth) in [('handle_client_request', 'reject', 2), ('handle_client_request', 'modify', 2), ('handle_client_request', 'reject', 3)]:
@@ -716,7 +761,7 @@ def floors(tier: str) -> Dict[str, int]:
     return {'chain_rounds_checked': 2000, 'chunk_rounds_checked': 500, 'lifecycle_checked': 800, 'rejections_checked': 100,
             'forwarded_requests_checked': 500, 'followups_checked': 300, 'distinct:hook_behaviour_position': 30,
             'ending:client-reset-mid-request': 10, 'ending:origin-reset-mid-response': 10, 'client_stream_vs_chain_checked': 100,
-            'auth_order_checked': 60, 'proxy_protocol:UNKNOWN': 20, 'proxy_protocol:TCP4': 20, 'followups_sent_behind_pending_output': 15, 'resolve_chain_checked': 30}
+            'auth_order_checked': 60, 'proxy_protocol:UNKNOWN': 20, 'proxy_protocol:TCP4': 20, 'followups_sent_behind_pending_output': 15, 'resolve_chain_checked': 30, 'connect_drop_checked': 30}
 
 
 if __name__ == '__main__':
